@@ -29,6 +29,9 @@
 (*          full and transparent checkpoints / restores, maybe_restore     *)
 (*          with the thresholds as nondeterministic parameters (0/48, 0/1  *)
 (*          so that small histories reach all three outcomes), ghosts      *)
+(*   ckpt   deeper checkpoint histories over two atoms (6180 inline, a     *)
+(*          5-byte heap atom): nesting of full / transparent checkpoints,  *)
+(*          restores that pass later checkpoints, maybe_restore reuse      *)
 (*   caps   MaxAtoms / MaxPairs / HeapLimit of a few units: every call     *)
 (*          kind at distance 0..2 of each cap                              *)
 (*   ints   new_number / new_malachite_number / new_u64 / new_i64 /        *)
@@ -41,7 +44,10 @@
 (*   gc     maybe_restore with the real thresholds 1024 / 48: the big      *)
 (*          atoms are REAL byte strings here (48, 49 and 1100 bytes of     *)
 (*          0xaa) - TLC copes because the universe is tiny                 *)
-(*   sim    (TLC -simulate) long random histories over the union           *)
+(*   sim    (TLC -simulate) long random histories over the union, with     *)
+(*          small caps (12 atoms, 6 pairs, 40 bytes)                       *)
+(* In the thorough tier all behaviours are still model-checked but only a  *)
+(* deterministic sample of the big profiles is printed (EmitMod).          *)
 (***************************************************************************)
 EXTENDS AllocMech, TLC, Json, IOUtils
 
@@ -178,7 +184,10 @@ Step(op) ==
       /\ MSet(mr)
       /\ SetS(ar)
       /\ hist' = Append(hist, [op |-> aop, st |-> ar.st, ret |-> ar.ret,
-                               atoms |-> ar.s.atoms, pairs |-> ar.s.pairs, heap |-> ar.s.heap])
+                               atoms |-> ar.s.atoms, pairs |-> ar.s.pairs, heap |-> ar.s.heap,
+                               \* the bytes the created atom must read back as (<< -1 >>: not compared)
+                               rb |-> IF ar.ret > 0 /\ ar.s.nodes[ar.ret].k = "atom" /\ Len(ar.s.nodes[ar.ret].b) <= 64
+                                      THEN ar.s.nodes[ar.ret].b ELSE << -1 >>])
 
 IntOp(name, z) == [op |-> name, neg |-> z[1], mag |-> z[2]]
 
